@@ -1099,6 +1099,8 @@ func (n *network) startAcceptor(a gen.AcceptorOptions) (*acceptor, error) {
 	}
 	if a.Cookie == "" {
 		acceptor.cookie = n.cookie
+	} else {
+		acceptor.cookie = a.Cookie
 	}
 	for k, v := range a.AtomMapping {
 		acceptor.atom_mapping[k] = v
